@@ -965,6 +965,137 @@ def emit_log2_tab(repo, frags):
     return "\n".join(out) + "\n"
 
 
+def emit_conv_params(repo, frags):
+    """C06: the literals of the float conversions - FloatEncoding::encode/decode for f32/f64 (base/src/bit.rs), to_f32/to_f64_nontrivial
+    (integer/src/convert.rs), Repr::to_f32/to_f64 (rational/src/convert.rs), into_f32/f64_internal (float/src/convert.rs) -
+    as tuples of numbers; Conv/ConvParamsProof.v proves them equal to the constants of the as-is models."""
+    out = ["(** GENERATED by tools/translate.py from base/src/bit.rs, integer/src/convert.rs, rational/src/convert.rs, float/src/convert.rs. *)",
+           "From Coq Require Import ZArith List.", "Import ListNotations.", "Open Scope Z_scope.", ""]
+
+    def put(name, nums):
+        out.append("Definition %s : list Z := [%s].\n" % (name, "; ".join("(%d)" % n if n < 0 else "%d" % n for n in nums)))
+        frags.append((name, "ok"))
+
+    def fail(name, why):
+        frags.append((name, "unparsed %s" % str(why)[:100]))
+        out.append("(* UNPARSED %s *)\n" % name)
+
+    def lit(x):
+        return int(x.replace("_", ""), 0)
+
+    def read(rel):
+        try:
+            return open(os.path.join(repo, rel)).read()
+        except OSError:
+            return ""
+
+    def grab(name, body, pats):
+        """every pattern must match exactly as written; its groups are integer literals"""
+        nums = []
+        for pat in pats:
+            m = re.search(pat, body, flags=re.S)
+            if not m:
+                fail(name, "shape changed at /%s/" % pat[:60])
+                return
+            nums += [lit(g) for g in m.groups()]
+        put(name, nums)
+
+    N = r"(-?\s*(?:0x[0-9a-fA-F_]+|0b[01_]+|\d[\d_]*))"
+    bit = read("base/src/bit.rs")
+    for t, ut, wt in (("f32", "u32", "u64"), ("f64", "u64", "u128")):
+        m = re.search(r"impl\s+FloatEncoding\s+for\s+%s\s*\{" % t, bit)
+        if not m:
+            fail("encode_%s_gen" % t, "impl FloatEncoding for %s not found" % t)
+            fail("decode_%s_gen" % t, "impl FloatEncoding for %s not found" % t)
+            continue
+        impl = bit[m.end() - 1: balanced(bit, m.end() - 1)]
+        try:
+            enc = fn_body(impl, r"fn\s+encode\s*\([^)]*\)[^{]*")
+            grab("encode_%s_gen" % t, enc, [
+                r"let\s+top_bit\s*=\s*\(%s::BITS\s*-\s*zeros\)\s+as\s+i16\s*\+\s*exponent\s*;" % ut,
+                r"if\s+top_bit\s*>\s*%s\s*\{" % N,
+                r"else\s+if\s+top_bit\s*<\s*%s\s*-\s*%s\s*\{" % (N, N),
+                r"if\s+top_bit\s*<=\s*%s\s*\{" % N,
+                r"let\s+shift\s*=\s*exponent\s*\+\s*%s\s*\+\s*%s\s*;" % (N, N),
+                r"let\s+kept\s*=\s*wide\s*>>\s*s\s*;\s*let\s+half\s*=\s*\(wide\s*>>\s*\(s\s*-\s*%s\)\)\s*&\s*%s\s*;\s*let\s+sticky\s*=\s*wide\s*&\s*\(\(1%s\s*<<\s*\(s\s*-\s*%s\)\)\s*-\s*%s\)\s*!=\s*0\s*;" % (N, N, wt, N, N),
+                r"round_bits\s*=\s*\(\(kept\s*&\s*%s\)\s*<<\s*%s\s*\|\s*half\s*<<\s*%s\)\s+as\s+u8\s*\|\s*sticky\s+as\s+u8\s*;" % (N, N, N),
+                r"if\s+mantissa\s*==\s*%s\s*\{\s*mantissa\s*=\s*0\s*;[^}]*\}\s*else\s*\{\s*mantissa\s*<<=\s*zeros\s*\+\s*%s\s*;" % (N, N),
+                r"let\s+exponent\s*=\s*\(exponent\s*\+\s*%s\s*\+\s*%s::BITS\s+as\s+i16\)\s+as\s+%s\s*-\s*zeros(?:\s+as\s+%s)?\s*-\s*%s\s*;" % (N, ut, ut, ut, N),
+                r"bits\s*=\s*\(sign\s*<<\s*%s\)\s*\|\s*\(exponent\s*<<\s*%s\)\s*\|\s*\(mantissa\s*>>\s*%s\)\s*;" % (N, N, N),
+                r"round_bits\s*=\s*\(\(mantissa\s*>>\s*%s\)\s*&\s*%s\)\s+as\s+u8\s*\|\s*\(\(mantissa\s*&\s*%s\)\s*!=\s*0\)\s+as\s+u8\s*;" % (N, N, N),
+                r"if\s+round_bits\s*&\s*%s\s*==\s*0\s*\{" % N,
+            ])
+        except (LookupError, ValueError, SyntaxError) as ex:
+            fail("encode_%s_gen" % t, ex)
+        try:
+            dec = fn_body(impl, r"fn\s+decode\s*\([^)]*\)[^{]*")
+            grab("decode_%s_gen" % t, dec, [
+                r"let\s+sign_bit\s*=\s*bits\s*>>\s*%s\s*;" % N,
+                r"let\s+mantissa_bits\s*=\s*bits\s*&\s*%s\s*;" % N,
+                r"let\s+mut\s+exponent\s*=\s*\(\(bits\s*>>\s*%s\)\s*&\s*%s\)\s+as\s+i16\s*;" % (N, N),
+                r"if\s+exponent\s*==\s*%s\s*\{" % N,
+                r"if\s+exponent\s*==\s*%s\s*\{\s*(?://[^\n]*\n\s*)*exponent\s*=\s*%s\s*-\s*%s\s*;\s*mantissa_bits\s*\}" % (N, N, N),
+                r"exponent\s*-=\s*%s\s*\+\s*%s\s*;[^\n]*\n\s*mantissa_bits\s*\|\s*%s" % (N, N, N),
+            ])
+        except (LookupError, ValueError, SyntaxError) as ex:
+            fail("decode_%s_gen" % t, ex)
+    isrc = read("integer/src/convert.rs")
+    for t, ut in (("f32", "u32"), ("f64", "u64")):
+        nm = "int_to_%s_nontrivial_gen" % t
+        try:
+            body = fn_body(isrc, r"fn\s+to_%s_nontrivial\s*\(self\)[^{]*" % t)
+            grab(nm, body, [
+                r"let\s+n\s*=\s*self\.bit_len\(\)\s*;",
+                r"if\s+n\s*>\s*%s\s*\{\s*Inexact\(%s::INFINITY\s*,\s*Positive\)\s*\}\s*else\s*\{" % (N, t),
+                r"let\s+top_u\d+\s*:\s*%s\s*=\s*\(self\s*>>\s*\(n\s*-\s*%s\)\)\s*\.as_typed\(\)\s*\.try_to_unsigned\(\)\s*\.unwrap\(\)\s*;" % (ut, N),
+                r"let\s+extra_bit\s*=\s*self\.are_low_bits_nonzero\(n\s*-\s*%s\)\s+as\s+%s\s*;" % (N, ut),
+                r"%s::encode\(\(top_u\d+\s*\|\s*extra_bit\)\s+as\s+i\d+\s*,\s*\(n\s*-\s*%s\)\s+as\s+i16\)" % (t, N),
+            ])
+        except (LookupError, ValueError, SyntaxError) as ex:
+            fail(nm, ex)
+        nm = "int_to_%s_small_gen" % t
+        try:
+            body = fn_body(isrc, r"fn\s+to_%s_small\s*\(dword\s*:\s*DoubleWord\)[^{]*" % t)
+            grab(nm, body, [
+                r"let\s+f\s*=\s*dword\s+as\s+%s\s*;" % t,
+                r"if\s+f\s*==\s*\(\(%s\s+as\s+DoubleWord\)\s*<<\s*\(DoubleWord::BITS\s*-\s*%s\)\)\s+as\s+%s\s*\*\s*%s\.0\s*\{\s*return\s+Inexact\(f\s*,\s*Sign::Positive\)\s*;" % (N, N, t, N),
+                r"let\s+back\s*=\s*f\s+as\s+DoubleWord\s*;",
+                r"match\s+back\.partial_cmp\(&dword\)\.unwrap\(\)\s*\{\s*Ordering::Greater\s*=>\s*Inexact\(f\s*,\s*Sign::Positive\)\s*,\s*Ordering::Equal\s*=>\s*Exact\(f\)\s*,\s*Ordering::Less\s*=>\s*Inexact\(f\s*,\s*Sign::Negative\)\s*,?\s*\}",
+            ])
+        except (LookupError, ValueError, SyntaxError) as ex:
+            fail(nm, ex)
+    rsrc = read("rational/src/convert.rs")
+    for t, ut in (("f32", "u32"), ("f64", "u64")):
+        nm = "rat_to_%s_gen" % t
+        try:
+            body = fn_body(rsrc, r"fn\s+to_%s\s*\(&self\)\s*->\s*Approximation<%s,\s*Sign>[^{]*" % (t, t))
+            grab(nm, body, [
+                r"let\s+shift\s*=\s*num_bits\s+as\s+isize\s*-\s*den_bits\s+as\s+isize\s*-\s*%s\s*;" % N,
+                r"if\s+shift\s*>=\s*%s\s*-\s*%s\s*\{" % (N, N),
+                r"Inexact\(sign\s*\*\s*%s::INFINITY\s*,\s*sign\)\s*\}\s*else\s+if\s+shift\s*<\s*%s\s*-\s*%s\s*\{" % (t, N, N),
+                r"Inexact\(sign\s*\*\s*0%s\s*,\s*-sign\)\s*\}\s*else\s*\{\s*let\s+\(num\s*,\s*den\)\s*=\s*if\s+shift\s*>=\s*%s\s*\{" % (t, N),
+                r"\(self\.numerator\.clone\(\)\s*,\s*\(&self\.denominator\)\s*<<\s*shift\s+as\s+usize\)\s*\}\s*else\s*\{\s*\(\(&self\.numerator\)\s*<<\s*\(-shift\)\s+as\s+usize\s*,\s*self\.denominator\.clone\(\)\)",
+                r"let\s+\(man\s*,\s*r\)\s*=\s*num\.unsigned_abs\(\)\.div_rem\(&den\)\s*;\s*let\s+man\s*:\s*%s\s*=\s*man\.try_into\(\)\.unwrap\(\)\s*;\s*let\s+man\s*=\s*man\s*\|\s*\(!r\.is_zero\(\)\)\s+as\s+%s\s*;" % (ut, ut),
+                r"%s::encode\(sign\s*\*\s*man\s+as\s+i\d+\s*,\s*shift\s+as\s+i16\)" % t,
+            ])
+        except (LookupError, ValueError, SyntaxError) as ex:
+            fail(nm, ex)
+    fsrc = read("float/src/convert.rs")
+    for t in ("f32", "f64"):
+        nm = "fbig_into_%s_gen" % t
+        try:
+            body = fn_body(fsrc, r"fn\s+into_%s_internal\s*\(self\)[^{]*" % t)
+            grab(nm, body, [
+                r"let\s+top_bit\s*=\s*self\.exponent\s*\+\s*self\.significand\.bit_len\(\)\s+as\s+isize\s*;",
+                r"if\s+top_bit\s*>\s*%s\s*\{" % N,
+                r"else\s+if\s+self\.exponent\s*<\s*%s\s*-\s*%s\s*\{" % (N, N),
+                r"match\s+%s::encode\(man\d+\s*,\s*self\.exponent\s+as\s+i16\)\s*\{\s*Exact\(v\)\s*=>\s*Exact\(v\)\s*," % t,
+            ])
+        except (LookupError, ValueError, SyntaxError) as ex:
+            fail(nm, ex)
+    return "\n".join(out) + "\n"
+
+
 def main():
     ap = argparse.ArgumentParser()
     ap.add_argument("--repo", default="/repo")
@@ -979,6 +1110,7 @@ def main():
         "FloatAddParams.v": emit_float_add_params,
         "Log2Tab.v": emit_log2_tab,
         "FloatDivParams.v": emit_float_div_params,
+        "ConvParams.v": emit_conv_params,
     }
     for fname, fn in files.items():
         try:
